@@ -12,7 +12,7 @@ Quantifier: {p['quantifier']['text']}
 Why the existing tests cannot settle it: {p['why_tests_cant']}
 Code anchors: files {', '.join(p['anchors']['files'])}; mechanisms: {'; '.join(m['name'] + ' (' + m.get('where','') + ')' for m in p['anchors']['mechanism'])}.
 
-Your task: produce THREE independent, realistic source changes to the project (each a small patch a plausible refactor, optimisation or "cleanup" could introduce), each of which BREAKS the property above while the project still compiles and its existing test suite still passes. Prefer changes that need something specific to manifest — a particular interleaving, a crash or fault at a particular point, a multi-step sequence of operations, an unusual input (a boundary length, a particular bit, a particular name), or two cooperating sites that each look fine alone — NOT changes that ordinary use would expose at once. The three should use different mechanisms / different code sites.
+Your task: produce THREE independent, realistic source changes to the project (each a small patch a plausible refactor, optimisation or "cleanup" could introduce), each of which BREAKS the property above while the project still compiles and its existing test suite still passes. Prefer changes that need something specific to manifest — a particular interleaving, a crash or fault at a particular point, a multi-step sequence of operations, an unusual input (a boundary length, a particular bit, a particular name), or two cooperating sites that each look fine alone — NOT changes that ordinary use would expose at once. The three should use different mechanisms / different code sites. Aim for subtle changes in less obvious places too: helper functions, error paths, rarely taken branches, boundary arithmetic, the interaction between two files or two handlers, state that is only wrong after a particular sequence — not only the first mechanism named above.
 
 For each change i in 1..3 create the directory {wt}/out/<i>/ containing:
   - patch.diff : `git diff` of the change against the worktree's HEAD (source files only; apply cleanly with `git apply`);
